@@ -57,16 +57,34 @@ MGet(m, key) == IF m[key] = -1 THEN 0 ELSE m[key]
 MPut(m, key, y) == [m EXCEPT ![key] = y]
 
 (* ------------------------------------------------------------------ I: iso / morphism between structures S and T (or a map) *)
-\* a list entry: [kind |-> "iso", s |-> lens tree on S, t |-> lens tree on T] | [kind |-> "isoM", s |-> .., key |-> map key]
-\*               | [kind |-> "nil"]
+\* a list entry:
+\*   [kind |-> "iso",   s |-> lens tree on S, t |-> lens tree on T, sw |-> wrapper on the S side, tw |-> wrapper on the T side]
+\*                      a wrapper = [kind |-> "lens" (none) | "bimap" | "getter" | "setter", conv |-> .., nv |-> ..]:
+\*                      optics.Iso over plain field lenses or over BiMap / BiMapS,B,I,F / Getter / Setter lenses
+\*   [kind |-> "isoM",  s |-> lens tree on S, key |-> map key]                 (the target is a map)
+\*   [kind |-> "morph", seq |-> entries]                                        a Morphism as an entry of a Morphism
+\*   [kind |-> "nil"]
 Nil == [kind |-> "nil"]
-IsoFwd(iso, sv, tv) == IF iso.kind = "isoM" THEN MPut(tv, iso.key, LGet(iso.s, sv)[1]) ELSE LPut(iso.t, tv, LGet(iso.s, sv))
-IsoInv(iso, tv, sv) == IF iso.kind = "isoM" THEN LPut(iso.s, sv, <<MGet(tv, iso.key)>>) ELSE LPut(iso.s, sv, LGet(iso.t, tv))
-RECURSIVE FwdFrom(_,_,_,_), InvFrom(_,_,_,_)
+PlainW == [kind |-> "lens", conv |-> "", nv |-> 0]
+WOf(w, l) == [kind |-> w.kind, l |-> l, conv |-> w.conv, nv |-> w.nv]
+RECURSIVE IsoFwd(_,_,_), IsoInv(_,_,_), FwdFrom(_,_,_,_), InvFrom(_,_,_,_)
+\* iso.Forward: ta.Put(t, sa.Get(s));  iso.Inverse: sa.Put(s, ta.Get(t));  morphism: the loop, nil entries skipped
+IsoFwd(e, sv, tv) == CASE e.kind = "isoM" -> MPut(tv, e.key, LGet(e.s, sv)[1])
+                       [] e.kind = "morph" -> FwdFrom(e.seq, 1, sv, tv)
+                       [] OTHER -> UPut(WOf(e.tw, e.t), tv, UGet(WOf(e.sw, e.s), sv))
+IsoInv(e, tv, sv) == CASE e.kind = "isoM" -> LPut(e.s, sv, <<MGet(tv, e.key)>>)
+                       [] e.kind = "morph" -> InvFrom(e.seq, 1, tv, sv)
+                       [] OTHER -> UPut(WOf(e.sw, e.s), sv, UGet(WOf(e.tw, e.t), tv))
 FwdFrom(seq, i, sv, tv) == IF i > Len(seq) THEN tv ELSE FwdFrom(seq, i + 1, sv, IF seq[i].kind = "nil" THEN tv ELSE IsoFwd(seq[i], sv, tv))
 InvFrom(seq, i, tv, sv) == IF i > Len(seq) THEN sv ELSE InvFrom(seq, i + 1, tv, IF seq[i].kind = "nil" THEN sv ELSE IsoInv(seq[i], tv, sv))
 MForward(seq, sv, tv) == FwdFrom(seq, 1, sv, tv)      \* the new T
 MInverse(seq, tv, sv) == InvFrom(seq, 1, tv, sv)      \* the new S
+\* the isos a list really applies, nested Morphisms flattened, nil dropped
+RECURSIVE LeavesFrom(_,_)
+LeavesFrom(seq, i) == IF i > Len(seq) THEN <<>>
+                      ELSE (CASE seq[i].kind = "nil" -> <<>> [] seq[i].kind = "morph" -> LeavesFrom(seq[i].seq, 1) [] OTHER -> <<seq[i]>>)
+                           \o LeavesFrom(seq, i + 1)
+Leaves(seq) == LeavesFrom(seq, 1)
 
 (* ------------------------------------------------------------------ P: predicates *)
 InFocus(f, c) == f[1] <= c /\ c <= f[2]
@@ -88,13 +106,18 @@ ShapeAsComponents(ls, vals, ys) ==
   /\ ShGet(ls, vals) = [i \in 1..Len(ls) |-> Sub(vals, AbsFocus(ls[i]))]
 MapOnlyKey(m, key, y) == MGet(MPut(m, key, y), key) = y /\ \A k \in DOMAIN m \ {key} : MPut(m, key, y)[k] = m[k]
 \* Forward then Inverse restores the source; Forward touches only the target foci, Inverse only the source foci.
-\* (the isos of a list have pairwise different target foci)
+\* (the isos of a list have pairwise different target foci; an iso reads through a lawful or read-only optic on the
+\* source side.)  After Forward a lawful target optic shows what the source optic showed; a Setter target holds the
+\* converted value; a Getter target is never written.
 Live(seq) == {i \in 1..Len(seq) : seq[i].kind # "nil"}
 RoundTrip(seq, sv, tv) ==
-  LET t1 == MForward(seq, sv, tv)  s1 == MInverse(seq, t1, sv) IN
+  LET lv == Leaves(seq)  t1 == MForward(seq, sv, tv)  s1 == MInverse(seq, t1, sv) IN
   /\ s1 = sv
-  /\ \A i \in Live(seq) : LGet(seq[i].t, t1) = LGet(seq[i].s, sv)
-  /\ \A c \in 1..Len(tv) : (\E i \in Live(seq) : InFocus(AbsFocus(seq[i].t), c)) \/ t1[c] = tv[c]
+  /\ \A i \in 1..Len(lv) : LET e == lv[i]  shown == UGet(WOf(e.sw, e.s), sv) IN
+       CASE e.tw.kind \in {"lens", "bimap"} -> UGet(WOf(e.tw, e.t), t1) = shown
+         [] e.tw.kind = "setter" -> LGet(e.t, t1) = <<Inv(e.tw.conv, shown[1], e.tw.nv)>>
+         [] e.tw.kind = "getter" -> LGet(e.t, t1) = LGet(e.t, tv)
+  /\ \A c \in 1..Len(tv) : (\E i \in 1..Len(lv) : InFocus(AbsFocus(lv[i].t), c)) \/ t1[c] = tv[c]
 RoundTripM(seq, sv, m) ==
   LET m1 == MForward(seq, sv, m)  s1 == MInverse(seq, m1, sv) IN
   /\ s1 = sv
@@ -102,7 +125,7 @@ RoundTripM(seq, sv, m) ==
   /\ \A k \in DOMAIN m : (\E i \in Live(seq) : seq[i].key = k) \/ m1[k] = m[k]
 \* Inverse from any target state: only the source foci change
 InverseFrame(seq, tv, sv) ==
-  LET s1 == MInverse(seq, tv, sv) IN \A c \in 1..Len(sv) : (\E i \in Live(seq) : InFocus(AbsFocus(seq[i].s), c)) \/ s1[c] = sv[c]
+  LET s1 == MInverse(seq, tv, sv)  lv == Leaves(seq) IN \A c \in 1..Len(sv) : (\E i \in 1..Len(lv) : InFocus(AbsFocus(lv[i].s), c)) \/ s1[c] = sv[c]
 
 (* ------------------------------------------------------------------ the optics TLC lists for a structure *)
 \* lenses by name whose first match is a leaf: [key, ty, cell, nv]
